@@ -128,6 +128,9 @@ func fillValue(t *rapid.T, obj any, m genMode) bool {
 		fs := specOf(f)
 		fv := v.Field(i)
 		want := func(d int) string {
+			if m.kind == "allmax" {
+				return "limit" // every dimension of every field at its limit at once (the largest in-limit value)
+			}
 			if m.field == i && m.dim == d {
 				return m.kind
 			}
@@ -209,7 +212,7 @@ func fillValue(t *rapid.T, obj any, m genMode) bool {
 				}
 				for j := 0; j < n; j++ {
 					w := ""
-					if j == overIdx {
+					if j == overIdx || m.kind == "allmax" {
 						w = want(1)
 					}
 					l := drawLen(t, inner, f.Name+"i", w)
